@@ -42,7 +42,9 @@ CONSTS = """CONSTANTS
   MaxDeployErr = %(de)d
   MaxTdErr = %(te)d
   MaxAttempts = %(att)d
-  AllowShutdown = TRUE
+  AllowShutdown = %(shut)s
+  NContents = %(nc)d
+  FreshOnly = %(fresh)s
   Preexisting = %(pre)s
   Atomic = %(atomic)s
   MaxStimuli = %(ms)d
@@ -50,7 +52,7 @@ CONSTS = """CONSTANTS
 
 
 def mc_cfg(export=False, invariants=True, **kw):
-    d = dict(impl="intended", mm=2, mc=1, de=1, te=1, att=50, pre="FALSE", atomic="TRUE", ms=9)
+    d = mc_defaults()
     d.update(kw)
     t = CONSTS % d + "INIT Init\nNEXT Next\n"
     if invariants:
@@ -61,7 +63,7 @@ def mc_cfg(export=False, invariants=True, **kw):
 
 
 def trace_cfg(atomic, impl="intended"):
-    d = dict(impl=impl, mm=100000, mc=100000, de=100000, te=100000, att=50, pre="FALSE",
+    d = dict(impl=impl, mm=100000, mc=100000, de=100000, te=100000, att=50, pre="FALSE", shut="TRUE", nc=4, fresh="FALSE",
              atomic="TRUE" if atomic else "FALSE", ms=10000000)
     return CONSTS % d + "INIT TInit\nNEXT TNext\n"
 
@@ -177,7 +179,7 @@ def selftest(by, verdicts, work):
                 and not any(r["e"] == "req_shutdown" for r in recs):
             base_c = recs
         nb = [r for r in recs if r["e"] == "op_begin" and r["c"] == "Deploy"]
-        if base_d is None and len(nb) >= 2 and nb[-1]["m"] >= 2 and not any(
+        if base_d is None and len(nb) >= 2 and nb[-1]["m"] in (1, 2) and not any(
                 r["e"] in ("req_shutdown", "pub_closed") or (r["e"] == "op_return" and r["r"] == "err") for r in recs):
             base_d = recs
         if base_c and base_d:
@@ -199,7 +201,7 @@ def selftest(by, verdicts, work):
             break
     t[4] = rid(base_d, 4)
     last = [r for r in t[4] if r["e"] == "op_begin" and r["c"] == "Deploy"][-1]
-    last["m"] = last["m"] - 1
+    last["m"] = 3 - last["m"]   # the other content
     p = os.path.join(work, "selftest.ndjson")
     write_traces(p, t, [1, 2, 3, 4])
     v, _ = judge(p, atomic=True, timeout=300)
@@ -240,13 +242,25 @@ def run(pid, tier, seed, replay):
 
     # ---- J1 + export ------------------------------------------------------------------------------------
     if quick:
-        exp = {"forced": dict(), "forced-preexisting": dict(pre="TRUE", ms=8)}
+        # "contents": manifests are values (2 contents, 3 manifests: A-A-A, A-A-B, A-B-A, A-B-B at every point of the
+        # deploy window), no close / failure / shutdown: the setting of clause (d)
+        exp = {"forced": dict(), "forced-preexisting": dict(pre="TRUE", ms=8),
+               "forced-contents": dict(mm=3, nc=2, fresh="FALSE", mc=0, de=0, te=0, shut="FALSE", ms=10),
+               "forced-contents-close": dict(mm=3, nc=2, fresh="FALSE", mc=1, de=0, te=0, shut="FALSE", ms=7)}
         free = {"interleaved": dict(atomic="FALSE", att=2, ms=7),
+                "interleaved-contents": dict(atomic="FALSE", att=2, mm=3, nc=2, fresh="FALSE", mc=0, de=0, te=0,
+                                             shut="FALSE", ms=8),
                 "interleaved-preexisting": dict(atomic="FALSE", att=2, ms=5, pre="TRUE")}
     else:
         exp = {"forced": dict(mm=3, mc=2, de=2, te=2, ms=12),
-               "forced-preexisting": dict(mm=3, mc=2, de=2, te=2, ms=11, pre="TRUE")}
+               "forced-preexisting": dict(mm=3, mc=2, de=2, te=2, ms=11, pre="TRUE"),
+               "forced-contents": dict(mm=4, nc=3, fresh="FALSE", mc=0, de=0, te=0, shut="FALSE", ms=11),
+               "forced-contents-faults": dict(mm=3, nc=2, fresh="FALSE", mc=1, de=1, te=1, ms=10),
+               "forced-contents-preexisting": dict(mm=3, nc=2, fresh="FALSE", mc=0, de=0, te=0, shut="FALSE", ms=8,
+                                                   pre="TRUE")}
         free = {"interleaved": dict(atomic="FALSE", att=2, ms=8, mm=3),
+                "interleaved-contents": dict(atomic="FALSE", att=2, mm=3, nc=2, fresh="FALSE", mc=0, de=0, te=0,
+                                             shut="FALSE", ms=8),
                 "interleaved-preexisting": dict(atomic="FALSE", att=2, ms=6, pre="TRUE"),
                 "interleaved-total-teardown-failure": dict(atomic="FALSE", att=2, te=3, ms=7, mc=2)}
     futs = {}
@@ -261,6 +275,7 @@ def run(pid, tier, seed, replay):
                                             deadlock=False, extra_files={"x.cfg": mc_cfg(impl="asfound")})
 
     scripts = []   # (stim tuple, pre)
+    seen, prio = set(), set()
     configs = {}
     for name in exp:
         r = futs[name].result()
@@ -268,15 +283,18 @@ def run(pid, tier, seed, replay):
         ss = scripts_of(r.out)
         configs[name] = dict(constants=str(dict(mc_defaults(), **exp[name])), distinct=r.distinct, generated=r.generated,
                              depth=r.depth, scripts=len(ss), wall_s=round(r.wall_s, 1))
-        scripts += [(s, name.endswith("preexisting")) for s in sorted(ss)]
+        scripts += [(s, name.endswith("preexisting")) for s in sorted(ss) if (s, name.endswith("preexisting")) not in seen]
+        seen.update((s, name.endswith("preexisting")) for s in ss)
+        if "contents" in name:
+            prio.update((s, name.endswith("preexisting")) for s in ss)
     if not scripts:
         raise vlib.Inconclusive("no scripts exported from the forced-schedule model")
     total_scripts = len(scripts)
-    cap = 3500 if quick else 20000
+    cap = 4000 if quick else 20000
     exhaustive = True
     if len(scripts) > cap:
         # always keep the small complete configuration (no pre-existing deployment), sample the rest
-        keep = [s for s in scripts if not s[1]] if quick else []
+        keep = [s for s in scripts if not s[1]] if quick else [s for s in scripts if s in prio][:8000]
         ks = set(keep)
         rest = [s for s in scripts if s not in ks]
         rng.shuffle(rest)
@@ -284,7 +302,7 @@ def run(pid, tier, seed, replay):
         exhaustive = False
     if not quick:
         # total teardown failure: all 50 attempts fail (about 135 s of real back-off); thorough tier only
-        scripts.append((("m", "hok", "dok", "c") + ("terr",) * 50, False))
+        scripts.append((("m1", "hok", "dok", "c") + ("terr",) * 50, False))
     scripts = [dict(id=i, stim=list(s), pre=p) for i, (s, p) in enumerate(scripts)]
     log("J2: %d scripts (of %d exported)" % (len(scripts), total_scripts))
 
@@ -312,9 +330,10 @@ def run(pid, tier, seed, replay):
     # exit waits for the hostname service, which the harness may be holding at the gate.
     bys = [dict(id=2000000 + sc["id"], stim=sc["stim"], pre=False, by=True) for sc in scripts
            if not sc["pre"] and "s" not in sc["stim"] and len(sc["stim"]) <= 40]
-    if not quick and len(bys) > 6000:
+    nby = 300 if quick else 6000
+    if len(bys) > nby:
         rng.shuffle(bys)
-        bys = bys[:6000]
+        bys = bys[:nby]
     log("J2: %d bystander variants" % len(bys))
 
     # ---- J2 replay (sharded over processes; one system under test at a time per process) -----------------
@@ -501,7 +520,8 @@ def run(pid, tier, seed, replay):
 
 
 def mc_defaults():
-    return dict(impl="intended", mm=2, mc=1, de=1, te=1, att=50, pre="FALSE", atomic="TRUE", ms=9)
+    return dict(impl="intended", mm=2, mc=1, de=1, te=1, att=50, pre="FALSE", atomic="TRUE", ms=9, shut="TRUE", nc=4,
+                fresh="TRUE")
 
 
 def log(*a):
